@@ -10,7 +10,8 @@ import (
 )
 
 func init() {
-	register(&Rule{ID: "MATRIX", Doc: "sibling recognisers agree on which checks exist and which option controls them: every name-accepting path (ReadToken, ReadValue, consumeObject, WriteToken, WriteValue, AppendRaw, reformatObject) inserts the name into the current namespace under exactly !AllowDuplicateNames (and isActiveNamespace on the token paths) and fails with ErrDuplicateName; every ConsumeString* call validates UTF-8 unless exactly AllowInvalidUTF8; every jsonwire.AppendQuote on an output path receives the coder's/options' real flags (two reviewed exceptions); a non-string token at a name position yields ErrNonStringName in every state-machine method that can start a value; io.EOF is only produced at depth 1", Run: ruleMATRIX})
+	register(&Rule{ID: "MATRIX", Doc: "sibling recognisers agree on which checks exist and which option controls them: every name-accepting path (ReadToken, ReadValue, consumeObject, WriteToken, WriteValue, AppendRaw, reformatObject) inserts the name into the current namespace under exactly !AllowDuplicateNames (and isActiveNamespace on the token paths) and fails with ErrDuplicateName; every ConsumeString* call validates UTF-8 unless exactly AllowInvalidUTF8; every jsonwire.AppendQuote on an output path receives the coder's/options' real flags (two reviewed exceptions); a non-string token at a name position yields ErrNonStringName in every state-machine method that can start a value", Run: ruleMATRIX})
+	register(&Rule{ID: "EOF-1", Doc: "a clean end of stream is only reported between top-level values and only on the scanner's own verdict: every place that produces io.EOF is guarded by depth == 1, and inside jsontext the guard compares the error for identity with io.ErrUnexpectedEOF (the scanner's sentinel) — never with errors.Is/As, which would also match a failing reader's error that fetch wrapped", Run: ruleEOF1})
 	register(&Rule{ID: "POS-1", Doc: "error positions that claim to be after a value are only built after a value was consumed: newUnmarshalErrorAfter* is only called at points dominated by a consuming decoder call (ReadToken, ReadValue, SkipValue or a nested unmarshal dispatch); helpers inherit the fact from all their call sites", Run: rulePOS1})
 	register(&Rule{ID: "PANIC-1", Doc: "explicit panics are classified: every panic in the implementation packages is either an internal invariant (message starts with BUG or unreachable) or a documented API-misuse panic from the reviewed list, and no function has more panic sites than when it was reviewed", Run: rulePANIC1})
 }
@@ -283,67 +284,8 @@ func ruleMATRIX(c *Ctx) {
 			c.OK("O5-string-names:appendNumber", f.Pos(), "delegates to appendLiteral")
 		}
 	}
-	// EOF only at depth 1: every `err = io.EOF` / `return io.EOF` in jsontext decode paths and the arshal wrappers is guarded by Depth()==1 / prevDepth == 1
-	nEOF := 0
-	for _, f := range p.FuncsIn("jsontext", "json") {
-		if f.Body() == nil {
-			continue
-		}
-		info := f.Info()
-		eofObj := func(e ast.Expr) bool {
-			o := IdentOrSelObj(info, e)
-			return o != nil && o.Pkg() != nil && o.Pkg().Path() == "io" && o.Name() == "EOF"
-		}
-		InspectNoLit(f.Body(), func(nd ast.Node) bool {
-			var site ast.Node
-			switch x := nd.(type) {
-			case *ast.AssignStmt:
-				if len(x.Rhs) == 1 && len(x.Lhs) == 1 && eofObj(x.Rhs[0]) && isErrorType(info.TypeOf(x.Lhs[0])) {
-					site = x
-				}
-			case *ast.ReturnStmt:
-				for _, r := range x.Results {
-					if eofObj(r) {
-						site = x
-					}
-				}
-			}
-			if site == nil {
-				return true
-			}
-			nEOF++
-			guarded := false
-			for _, cc := range enclosingConds(p, f, site) {
-				ast.Inspect(cc.cond, func(m ast.Node) bool {
-					be, ok := m.(*ast.BinaryExpr)
-					if !ok || be.Op != token.EQL {
-						return true
-					}
-					if v, isC := ConstI64(info, be.Y); isC && v == 1 {
-						if call, ok := ast.Unparen(be.X).(*ast.CallExpr); ok {
-							if cf := Callee(info, call); cf != nil && cf.Name() == "Depth" {
-								guarded = true
-							}
-						}
-						if v2 := IdentObj(info, be.X); v2 != nil {
-							for _, d := range defsOf(info, f.Body(), v2) {
-								if call, ok := ast.Unparen(d).(*ast.CallExpr); ok {
-									if cf := Callee(info, call); cf != nil && (cf.Name() == "DepthLength" || cf.Name() == "Depth") {
-										guarded = true
-									}
-								}
-							}
-						}
-					}
-					return true
-				})
-			}
-			c.Oblige(fmt.Sprintf("eof-at-boundary:%s@%d", f.Name, nEOF), site.Pos(), guarded, "io.EOF is produced without a depth == 1 guard (EOF inside a value must be io.ErrUnexpectedEOF)")
-			return true
-		})
-	}
-	c.Floor("places that introduce io.EOF", nEOF, 4)
 }
+
 
 func rulePOS1(c *Ctx) {
 	p := c.P
@@ -701,4 +643,88 @@ func resultOK(p *Program, fn *FuncInfo, v types.Object, def ast.Expr) bool {
 		return true
 	})
 	return nret > 0 && okAll
+}
+
+func ruleEOF1(c *Ctx) {
+	p := c.P
+	// EOF only at depth 1: every `err = io.EOF` / `return io.EOF` in jsontext decode paths and the arshal wrappers is guarded by Depth()==1 / prevDepth == 1
+	nEOF := 0
+	perFunc := map[*FuncInfo]int{}
+	for _, f := range p.FuncsIn("jsontext", "json") {
+		if f.Body() == nil {
+			continue
+		}
+		info := f.Info()
+		eofObj := func(e ast.Expr) bool {
+			o := IdentOrSelObj(info, e)
+			return o != nil && o.Pkg() != nil && o.Pkg().Path() == "io" && o.Name() == "EOF"
+		}
+		InspectNoLit(f.Body(), func(nd ast.Node) bool {
+			var site ast.Node
+			switch x := nd.(type) {
+			case *ast.AssignStmt:
+				if len(x.Rhs) == 1 && len(x.Lhs) == 1 && eofObj(x.Rhs[0]) && isErrorType(info.TypeOf(x.Lhs[0])) {
+					site = x
+				}
+			case *ast.ReturnStmt:
+				for _, r := range x.Results {
+					if eofObj(r) {
+						site = x
+					}
+				}
+			}
+			if site == nil {
+				return true
+			}
+			nEOF++
+			perFunc[f]++
+			guarded := false
+			identity, viaIs := false, false
+			for _, cc := range enclosingConds(p, f, site) {
+				ast.Inspect(cc.cond, func(m ast.Node) bool {
+					if call, ok := m.(*ast.CallExpr); ok && (FuncCall(info, call, "errors", "Is") || FuncCall(info, call, "errors", "As")) {
+						for _, a := range call.Args {
+							if o := IdentOrSelObj(info, a); o != nil && o.Pkg() != nil && o.Pkg().Path() == "io" && o.Name() == "ErrUnexpectedEOF" {
+								viaIs = true
+							}
+						}
+					}
+					be, ok := m.(*ast.BinaryExpr)
+					if !ok || be.Op != token.EQL {
+						return true
+					}
+					for _, side := range []ast.Expr{be.X, be.Y} {
+						if o := IdentOrSelObj(info, side); o != nil && o.Pkg() != nil && o.Pkg().Path() == "io" && o.Name() == "ErrUnexpectedEOF" {
+							identity = true
+						}
+					}
+					if v, isC := ConstI64(info, be.Y); isC && v == 1 {
+						if call, ok := ast.Unparen(be.X).(*ast.CallExpr); ok {
+							if cf := Callee(info, call); cf != nil && cf.Name() == "Depth" {
+								guarded = true
+							}
+						}
+						if v2 := IdentObj(info, be.X); v2 != nil {
+							for _, d := range defsOf(info, f.Body(), v2) {
+								if call, ok := ast.Unparen(d).(*ast.CallExpr); ok {
+									if cf := Callee(info, call); cf != nil && (cf.Name() == "DepthLength" || cf.Name() == "Depth") {
+										guarded = true
+									}
+								}
+							}
+						}
+					}
+					return true
+				})
+			}
+			c.Oblige(fmt.Sprintf("eof-at-boundary:%s@%d", f.Name, perFunc[f]), site.Pos(), guarded, "io.EOF is produced without a depth == 1 guard (EOF inside a value must be io.ErrUnexpectedEOF)")
+			if f.Pkg != nil && f.Pkg.PkgPath == pkgAlias["jsontext"] && (identity || viaIs) {
+				// the scanner's own sentinel, not a reader's error that merely wraps it (fetch reports reader failures as *ioError, which unwraps)
+				c.Oblige(fmt.Sprintf("eof-from-own-sentinel:%s@%d", f.Name, perFunc[f]), site.Pos(), identity && !viaIs,
+					"a clean io.EOF is derived with errors.Is/As from io.ErrUnexpectedEOF: a failing reader whose error wraps ErrUnexpectedEOF would end the stream silently; the conversion must test identity with the scanner's own sentinel")
+			}
+			return true
+		})
+	}
+	c.Floor("places that introduce io.EOF", nEOF, 4)
 }
